@@ -1020,7 +1020,7 @@ def measure(ctx, fn, e, a, tries=1, history=0):
         json.dump({"fn": fn, "e": e, "a": a}, fh)
     best = None
     for _ in range(tries):
-        p = subprocess.run([ctx.harness, "measure", "-in", path, "-history", str(history), "-max-time", "60s"], capture_output=True, text=True, timeout=300,
+        p = subprocess.run([ctx.harness, "measure", "-in", path, "-history", str(history), "-max-time", "60s" if history else "10s"], capture_output=True, text=True, timeout=300,
                            env=dict(os.environ, GOGC="100"))
         try:
             r = json.loads(p.stdout.strip().splitlines()[-1])
@@ -1028,8 +1028,8 @@ def measure(ctx, fn, e, a, tries=1, history=0):
             raise Infra("measure failed (rc=%d): %s" % (p.returncode, p.stderr[-1000:]))
         if best is None or r["ns"] < best["ns"]:
             best = r
-        if not r["aborted"] and r["ns"] < 1e9:
-            break
+        if r["aborted"] or r["ns"] < 1e9:
+            break       # (only a completed run slower than the 1 s budget is repeated: wall time is noisy, an abort at 10 s is not)
     return best
 
 
@@ -1110,6 +1110,14 @@ def c14(ctx):
                                            "expected": "<= 64 MiB allocated and <= 1 s for an input of <= 512 bytes",
                                            "observed": pt, "source": "measure"})
                 prev = seen.get(c["n"] // 2) if c["n"] % 2 == 0 else None
+                # time: a doubling that turns well under a third of a second into more than ten seconds (the watchdog's limit)
+                # or multiplies a measurable time by more than 32 is not low-degree polynomial growth
+                if prev and not prev["aborted"]:
+                    t_prev, t_now = prev["ms"], (10000.0 if m["aborted"] == "time-limit" else m["ns"] / 1e6)
+                    if t_now >= 1000.0 and t_prev * 32 < t_now:
+                        ctx.mismatches.append({"what": "cost-growth", "fn": fn, "family": fam, "expr": c["e"][:300], "list": a[:3],
+                                               "expected": "time(2n)/time(n) <= 32 once time(2n) reaches a second",
+                                               "observed": {"ms_n": t_prev, "ms_2n": t_now, "at": pt}, "source": "measure (time)"})
                 if prev and prev["alloc"] > 256 * 1024:
                     ratio = m["alloc"] / prev["alloc"]
                     if ratio > 16:
